@@ -289,6 +289,160 @@ fn random_schema(rng: &mut Rng, max_cols: usize) -> Vec<ColDef> {
     cols
 }
 
+/// Several tables in one package, created / dropped over several save-and-reopen cycles, with table,
+/// column, category and enumeration strings drawn from one small pool so that they coincide across tables.
+/// After every cycle every live table must still report the schema it was created with.
+pub fn multi_table_session(rep: &mut Report, seed: u64, case: u64, directed: Option<usize>) {
+    const NAMES: [&str; 14] = ["Dir", "Tree", "Node", "Dir.Tree", "Tree.Node", "Alpha", "Beta", "K", "Text", "Identifier", "Y", "N", "Cabinet", "Dir.Tree.Node"];
+    #[derive(Clone)]
+    enum St {
+        Create(String, Vec<ColDef>),
+        Drop(String),
+        Reopen,
+    }
+    let k16 = |n: &str| ColDef::new(n, CT::Int16).key();
+    let mut rng = Rng::derive(seed, 66, case);
+    let steps: Vec<St> = match directed {
+        Some(0) => vec![
+            St::Create("Dir".into(), vec![k16("K"), ColDef::new("Tree.Node", CT::Int16).range(1, 5)]),
+            St::Create("Dir.Tree".into(), vec![k16("K"), ColDef::new("Node", CT::Str(7)).cat("Identifier").nullable()]),
+            St::Reopen,
+        ],
+        Some(1) => vec![
+            St::Create("Alpha".into(), vec![k16("Beta")]),
+            St::Reopen,
+            St::Create("Beta".into(), vec![k16("Alpha")]),
+            St::Reopen,
+            St::Drop("Alpha".into()),
+            St::Reopen,
+            St::Reopen,
+        ],
+        Some(2) => vec![
+            St::Create("Alpha".into(), vec![k16("K"), ColDef::new("Text", CT::Str(0)).cat("Text").enums(&["Y", "N"]).nullable()]),
+            St::Reopen,
+            St::Create("Text".into(), vec![k16("K"), ColDef::new("Alpha", CT::Str(0)).cat("Text").enums(&["Y", "N"]).nullable()]),
+            St::Reopen,
+            St::Drop("Alpha".into()),
+            St::Reopen,
+            St::Create("Alpha".into(), vec![k16("Text")]),
+            St::Drop("Text".into()),
+            St::Reopen,
+        ],
+        _ => {
+            let mut v = Vec::new();
+            let mut live: Vec<String> = Vec::new();
+            for _ in 0..(4 + rng.usize(8)) {
+                match rng.below(6) {
+                    0 | 1 | 2 => {
+                        let name = rng.pick(&NAMES).to_string();
+                        let n = 1 + rng.usize(3);
+                        let mut cols: Vec<ColDef> = Vec::new();
+                        for i in 0..n {
+                            let cname = rng.pick(&NAMES).to_string();
+                            if cols.iter().any(|c: &ColDef| c.name == cname) {
+                                continue;
+                            }
+                            let mut c = random_col(&mut rng, i);
+                            c.name = cname;
+                            if !c.enums.is_empty() {
+                                c.enums = vec![rng.pick(&NAMES).to_string(), "zz".into()];
+                            }
+                            if let Some(f) = c.fk.as_mut() {
+                                f.0 = rng.pick(&NAMES).to_string();
+                            }
+                            cols.push(c);
+                        }
+                        cols[0].key = true;
+                        if !live.contains(&name) {
+                            live.push(name.clone());
+                        }
+                        v.push(St::Create(name, cols));
+                    }
+                    3 if !live.is_empty() => {
+                        let i = rng.usize(live.len());
+                        v.push(St::Drop(live.remove(i)));
+                    }
+                    _ => v.push(St::Reopen),
+                }
+            }
+            v.push(St::Reopen);
+            v
+        }
+    };
+    let log: Vec<String> = steps
+        .iter()
+        .map(|s| match s {
+            St::Create(n, c) => format!("create {} {}", n, shape(c)),
+            St::Drop(n) => format!("drop {}", n),
+            St::Reopen => "reopen".into(),
+        })
+        .collect();
+    let witness = json!({"kind": "multi", "seed": seed, "case": case, "directed": directed, "steps": log});
+    rep.case(Some(fnv(log.join(";").as_bytes())));
+    rep.count("multi_table_sessions");
+    let med = Medium::new();
+    let mut pkg: Option<Pkg> = Some(msi::Package::create(msi::PackageType::Installer, med.handle()).expect("create"));
+    let mut want: std::collections::BTreeMap<String, Vec<ColDef>> = Default::default();
+    for (i, st) in steps.iter().enumerate() {
+        let at = format!("step {} ({})", i, log[i]);
+        let r: Result<(), (String, String)> = (|| {
+            match st {
+                St::Create(name, cols) => {
+                    let mcols: Vec<msi::Column> = cols.iter().map(|c| c.to_msi()).collect();
+                    match guarded(|| pkg.as_mut().unwrap().create_table(name.clone(), mcols)) {
+                        Err(p) => return Err((format!("panic/{}", p.signature()), p.message)),
+                        Ok(Err(_)) => {}
+                        Ok(Ok(())) => {
+                            want.insert(name.clone(), cols.clone());
+                        }
+                    }
+                }
+                St::Drop(name) => match guarded(|| pkg.as_mut().unwrap().drop_table(name)) {
+                    Err(p) => return Err((format!("panic/{}", p.signature()), p.message)),
+                    Ok(Err(_)) => {}
+                    Ok(Ok(())) => {
+                        want.remove(name);
+                    }
+                },
+                St::Reopen => {
+                    let p = pkg.take().unwrap();
+                    match guarded(move || p.into_inner().map(|_| ())) {
+                        Ok(Ok(())) => {}
+                        Ok(Err(e)) => return Err(("multi/into_inner-error".into(), e.to_string())),
+                        Err(p) => return Err((format!("panic/{}", p.signature()), p.message)),
+                    }
+                    let h = med.handle();
+                    match guarded(|| msi::Package::open(h)) {
+                        Ok(Ok(p)) => pkg = Some(p),
+                        Ok(Err(e)) => return Err(("multi/reopen-unreadable".into(), format!("the saved package cannot be reopened: {}", e))),
+                        Err(p) => return Err((format!("panic/{}", p.signature()), p.message)),
+                    }
+                }
+            }
+            // every live table reports the schema it was created with
+            for (name, cols) in &want {
+                match guarded(|| read_cols(pkg.as_mut().unwrap(), name)) {
+                    Ok(Ok(got)) => {
+                        if let Some((attr, msg)) = first_diff(cols, &got) {
+                            return Err((format!("multi/{}", attr), format!("table {:?}: {}", name, msg)));
+                        }
+                    }
+                    Ok(Err(e)) => return Err(("multi/unreadable".into(), format!("table {:?}: {}", name, e))),
+                    Err(p) => return Err((format!("panic/{}", p.signature()), p.message)),
+                }
+            }
+            Ok(())
+        })();
+        if let Err((clause, msg)) = r {
+            rep.violation(format!("C06/{}", clause), format!("{}: {}", at, msg), witness);
+            if let Some(p) = pkg.take() {
+                std::mem::forget(p);
+            }
+            return;
+        }
+    }
+}
+
 pub fn run(ctx: &Ctx) -> Report {
     let sw = sweeps();
     if let Some(w) = &ctx.replay {
@@ -308,6 +462,7 @@ pub fn run(ctx: &Ctx) -> Report {
                     check_table(&mut rep, &mut b, &cols, "pair", w.clone());
                 }
             }
+            Some("multi") => multi_table_session(&mut rep, w["seed"].as_u64().unwrap_or(ctx.seed), w["case"].as_u64().unwrap_or(0), w["directed"].as_u64().map(|x| x as usize)),
             Some("random") => {
                 let mut rng = Rng::derive(w["seed"].as_u64().unwrap_or(ctx.seed), 6, w["case"].as_u64().unwrap_or(0));
                 let cols = random_schema(&mut rng, 32);
@@ -344,6 +499,14 @@ pub fn run(ctx: &Ctx) -> Report {
                     rep.count("pair_tables");
                 }
             }
+        }
+        for d in 0..3usize {
+            if d % n == shard {
+                multi_table_session(&mut rep, seed, d as u64, Some(d));
+            }
+        }
+        for case in (shard as u64..n_random / 20).step_by(n) {
+            multi_table_session(&mut rep, seed, case, None);
         }
         for case in (shard as u64..n_random).step_by(n) {
             let mut rng = Rng::derive(seed, 6, case);
